@@ -8,6 +8,7 @@ CONSTANTS
   Backup = "any"
   Scenes <- Disp
   DispWrite = "every"
+  MatTable = "own"
 INVARIANT TypeOK
 INVARIANT DeviceCells
 INVARIANT Range
